@@ -240,6 +240,7 @@ pub fn family_cases() -> Vec<Case> {
 
 /// strip identifiers / numbers from a diagnostic so signatures are stable
 pub fn norm(s: &str) -> String {
+    let s = &crate::util::repo_norm(s);
     let mut o = String::new();
     let mut last = ' ';
     for ch in s.chars().take(100) {
